@@ -85,6 +85,18 @@ namespace awkward {
 
       while (dst.get() == nullptr  ||  dst.get()->length() < length) {
         ContentPtr piece(nullptr);
+        if (partitionid >= numpartitions()) {
+          // everything has been consumed: only zero-length partitions can follow
+          if (dst.get() != nullptr  ||  length != 0) {
+            throw std::invalid_argument(
+              std::string("repartition stops must be non-decreasing")
+              + FILENAME(__LINE__));
+          }
+          ContentPtr last = partitions_.back();
+          dst = last.get()->getitem_range_nowrap(last.get()->length(),
+                                                 last.get()->length());
+          break;
+        }
         ContentPtr src = partitions_[(size_t)partitionid];
         int64_t available = src.get()->length() - index;
         int64_t desired = (dst.get() == nullptr ? length
